@@ -270,6 +270,11 @@ Proof.
     intros q Hq. rewrite Forall_forall in H, Hwf. apply H; auto.
     + rewrite forallb_forall in Hat. auto.
     + eapply fdev_flat_map in HD; eauto.
+  - (* Par (below an atomic composite) *)
+    cbn [build obs_build wave] in *. cbn [wf] in Hwf. rewrite verd_app. apply fdev_app in HD as [HD _].
+    eapply bind_ref'; [apply IHp; auto|]. intros _.
+    destruct (wave p (lookup s) drop); [|apply refines_refl].
+    eapply bind_ref; [apply eval_all_ref|apply refines_refl].
   - (* Ari *)
     cbn [build obs_build wave] in *. cbn [wf] in Hwf. rewrite verd_app. apply fdev_app in HD as [HD _].
     eapply bind_ref'; [apply IHp; auto|]. intros _.
@@ -301,6 +306,9 @@ Proof.
     apply fold_unit_ref with (f := fun q => meas_at q s) (obsf := fun q => obs_meas q (lookup s)).
     intros q Hq. rewrite Forall_forall in H, Hwf. rewrite forallb_forall in Hat.
     destruct (fold_or_ok _ _ _ _ Hb q Hq) as [w' Hw']. eapply H; eauto.
+  - (* Par *)
+    cbn [meas_at obs_meas]. cbn [wf] in Hwf. cbn [build] in Hb.
+    destruct (build p s drop) as [w'|] eqn:Eb; cbn [bind] in Hb; [|discriminate]. eapply IHp; eauto.
   - (* Ari *)
     cbn [meas_at obs_meas]. cbn [wf] in Hwf. cbn [build] in Hb.
     destruct (build p s drop) as [w'|] eqn:Eb; cbn [bind] in Hb; [|discriminate]. eapply IHp; eauto.
